@@ -17,8 +17,11 @@ func judgeC10(hst Hist) *h.Verdict {
 	for step, op := range hst.Ops {
 		if op.K == "jump" {
 			// very many records later: the global counter stands at op.Amt (reachable only by that many creates)
-			verifapi.SetLocalRecordSeq(uint64(op.Amt))
-			v.Label("counter-jump")
+			// the counter only ever grows: a jump to a value it has already passed is not a reachable state
+			if uint64(op.Amt) > verifapi.LocalRecordSeq() {
+				verifapi.SetLocalRecordSeq(uint64(op.Amt))
+				v.Label("counter-jump")
+			}
 			continue
 		}
 		if op.K == "burn" {
